@@ -298,7 +298,7 @@ def c09_units(tier):
     VG = ['valgrind', '-q', '--error-exitcode=0', '--undef-value-errors=yes', '--track-origins=no', '--num-callers=12']
     for name, src, a in [('vg-c02', 'checks/c02_eval.cpp', []), ('vg-c04', 'checks/c04_primitive.cpp', []), ('vg-c03', 'checks/c03_arith.cpp', ['--part', 'e1']),
                          ('vg-c13', 'checks/c13_support.cpp', []), ('vg-c07', 'checks/c07_linear.cpp', [])] + ([('vg-c06', 'checks/c06_bilinear.cpp', []), ('vg-c01', 'checks/c01_generator.cpp', [])] if th else []):
-        v = unit(name, src, 'exact', args=a + ['--tier', 'quick'], flags=['-g', '-DVF_VALGRIND'])   # always the quick space: memcheck is 30-50x slower
+        v = unit(name, src, 'o0', args=a + ['--tier', 'quick'], flags=['-g', '-DVF_VALGRIND'])   # -O0: locals live in memory, so memcheck sees uninitialised ones;   # always the quick space: memcheck is 30-50x slower
         v['wrap'] = VG
         us.append(v)
     return us
